@@ -1,6 +1,6 @@
 #!/usr/bin/env python3
 """Writes /verif/MANIFEST.json (kept in one place so that all 16 entries stay consistent)."""
-import json, subprocess
+import json, os, subprocess
 
 P = {
  'C01': ('ordered collect == sequential chain', "Every interleaving of 2 workers (FULL) and all schedules with <= 1-2 preemptions / <= 2 delays of 3 workers, of the spawner and the workers of the five ordered-collect kernels (both chunk paths, Vec/SplitVec/FixedVec targets, known- and unknown-length wrapped sources, all 2^N filter masks), plus every one of the 95 transformation chains x 21 source kinds x inputs of length 0..4(5) (incl. duplicates) x parameter settings under two base schedules; each execution of the real code compared with the sequential reference chain.", '7 C01'),
@@ -67,7 +67,7 @@ def main():
         'notes': 'known findings are listed in /verif/known_findings.json; see DESIGN.md',
         'not_applicable': [],
     }
-    json.dump(m, open('/verif/MANIFEST.json', 'w'), indent=1)
+    json.dump(m, open(os.path.join(os.path.dirname(os.path.dirname(os.path.abspath(__file__))), 'MANIFEST.json'), 'w'), indent=1)
     print('MANIFEST.json written:', len(checks), 'checks')
 
 if __name__ == '__main__':
